@@ -99,4 +99,18 @@ has no GeoJSON encoding; then the encoder must say so with an error. -/
 def reStableValue (g : BGeom) (r : Re) : Bool :=
   if jsonEncodable g then reStable g r else match r with | .encErr => true | _ => false
 
+/-! ### encodings that are alive at the same time
+
+The round-trip clause speaks about "the result" of re-encoding. A caller may hold several such
+results at once, so the clause is also evaluated *late*: a whole batch of decoded geometries is
+re-encoded first, the returned byte strings are KEPT, and only after the last encoder call is each
+kept string looked at. -/
+
+/-- what the encoder returned must still be what it returned: bit-identical to a private copy taken
+right after the call (an encoder must not hand out memory that a later call overwrites) -/
+def keptIntact (kept copy : List UInt8) : Bool := kept == copy
+
+/-- the late form of `reStable`: decoding the KEPT encoding yields the geometry it was made from -/
+def reStableLate (g : BGeom) (r : Re) : Bool := reStable g r
+
 end GeomV.C07.Spec
